@@ -767,7 +767,7 @@ def system_part(ck):
     BetaBounded, BetaMonotoneStep)."""
     from vlib import sysrun
 
-    cov = sysrun.model_part(ck, "C05", variants=[], tier=ck.tier,
+    cov = sysrun.model_part(ck, "C05", variants=["runagain"], tier=ck.tier,
                             configs=[dict(clustering="TRUE", every=2, metric="ess", cap=0), dict(clustering="FALSE", every=1, metric="vv", cap=0)])
     factors = {"metric": [{}, {"volume_variation": 0.2}, {"volume_variation": 1.0}, {"volume_variation": 5.0}], "ess_ratio": [1.0, 2.0, 3.5, 2.3],
                "n_particles": [8, 16, 9], "sample": ["tpcn", "rwm"], "clustering": [True, False], "target": ["gauss", "bimodal", "edge"]}
